@@ -8,6 +8,7 @@
   A line that cannot be decoded is answered with {"id": n, "bad": "..."}; it is never defaulted.
 -/
 import SymmModel.Driver.Ops
+import SymmModel.Model.DType
 namespace SymmModel.Driver
 open Lean SymmModel
 
@@ -47,6 +48,26 @@ def handleCore (kind : String) (j : Json) : Option (D Json) :=
   | "valid" => some (do
       let a ← decArr (← field j "arr")
       pure (Json.mkObj [("ok", Json.bool a.validB), ("reason", Json.str a.invalidReason)]))
+  | "dtype" => some (do
+      -- {"queries": [["promote", a, b] | ["real", a] | ["op", opname, ex, [args]]]}
+      let qs ← getArr (← field j "queries")
+      let dt (x : Json) : D DType := do
+        match DType.ofName? (← getStr x) with
+        | some d => pure d
+        | none => throw "unknown dtype"
+      let rs ← qs.toList.mapM (fun q => do
+        let a ← getArr q
+        match a.toList with
+        | [.str "promote", x, y] => pure (Json.str (DType.promote (← dt x) (← dt y)).name)
+        | [.str "real", x] => pure (Json.str (← dt x).realPart.name)
+        | [.str "op", .str o, ex, args] =>
+          let op ← match o with
+            | "keep" => pure DOp.keep | "binary" => pure DOp.binary | "zerosLike" => pure DOp.zerosLike
+            | "insertInto" => pure DOp.insertInto | "real" => pure DOp.real
+            | _ => throw "unknown dop"
+          pure (Json.str (op.result (← dt ex) (← listOf dt args)).name)
+        | _ => throw "bad dtype query")
+      pure (Json.mkObj [("answers", Json.arr rs.toArray)]))
   | _ => none
 
 end SymmModel.Driver
